@@ -484,6 +484,34 @@ func checkC01(c *core.Ctx) {
 			})
 		}
 	}
+	// (2b) a LEAF as the root of one back-propagation of a sequence, before and after a graph over it
+	{
+		var pool1 []*ref.Program
+		var codes []string
+		enumPrograms(c01Leaves(), c01Masks[0], fullAlphabet, 1, func(p *ref.Program, code string, nOps int) {
+			pool1 = append(pool1, copyProgram(p))
+			codes = append(codes, code)
+		})
+		for i := range pool1 {
+			for leaf := 0; leaf < 2; leaf++ {
+				for order := 0; order < 3; order++ {
+					for mi, mask := range c01Masks {
+						i, leaf, order, mask := i, leaf, order, mask
+						c.Case(fmt.Sprintf("seqleaf/%s/l%d/o%d/m%d", codes[i], leaf, order, mi), true, func() core.Verdict {
+							p := &ref.Program{Leaves: c01Leaves(), Tracked: mask, Nodes: pool1[i].Nodes}
+							root := p.NTensors() - 1
+							roots := [][]int{{root, leaf}, {leaf, root}, {leaf, root, leaf}}[order]
+							v := seqGradCase(p, roots, gradOpts{})
+							if !v.OK && !v.Skip {
+								v.Detail = describeProgram(p) + " :: " + v.Detail
+							}
+							return v
+						})
+					}
+				}
+			}
+		}
+	}
 	// (3) sequences of back-propagations over graphs sharing only leaves
 	seqOps := 1
 	if c.Thorough() {
